@@ -45,7 +45,7 @@ def gen_db(rng, tier, seed):
     cm = rng.choice([23, 23, 24, 50, 100, 185, 517])
     sm = rng.choice([23, 24, 50, 100, 185, 517])
     mtu = max(23, min(cm, sm))
-    db = gattdb.gen_db(rng, max_services=4, max_chars=4, mtu_hint=mtu, callbacks=True,
+    db = gattdb.gen_db(rng, max_services=4, max_chars=4, mtu_hint=mtu, callbacks=True, uuid32=True,
                        value_lens=[0, 1, mtu - 4, mtu - 3, mtu - 2, mtu - 1, mtu, 2 * (mtu - 1), 2 * (mtu - 1) + 1, 3 * (mtu - 1), 100, 512])
     nclients = rng.choice([1, 1, 2])
     eatt = rng.random() < 0.3
@@ -201,7 +201,13 @@ def run_db(case):
             if proxy is None or not c['props'] & 0x08:
                 continue
             wr += 1
-            newv = bytes((wr * 9 + k) & 0xFF for k in range(min(b['mtu'] - 3, 1 + wr * 5)))
+            # lengths: small, empty, the most one Write Request can carry, the longest value GATT allows (512) when that fits
+            fits = b['mtu'] - 3
+            size = [1 + wr * 5, 0, fits, 512, 511, fits - 1][(case['seed'] + wr) % 6]
+            size = max(0, min(size, fits, 512))
+            if size == 512:
+                sim.probe('write_of_the_longest_legal_value')
+            newv = bytes((wr * 9 + k) & 0xFF for k in range(size))
             st, t = sim.run(proxy.write_value(newv, with_response=True), 60.0)
             sim.loop.settle()
             if st != 'done' or t.exception() is not None:
@@ -365,8 +371,12 @@ def _filtered_discovery(sim, b, layout, case):
     prim = [s for s in layout if s['primary']]
     if not prim:
         return
-    for svc in rnd.sample(prim, min(2, len(prim))):
+    for svc in rnd.sample(prim, min(3, len(prim))):
         suuid = core.UUID.from_bytes(svc['uuid'])
+        declared = case['db']['services'][layout.index(svc)]['uuid'] if len(case['db']['services']) == len(layout) else ''
+        if len(declared) == 8:
+            suuid = core.UUID(declared)  # the application's own, 32-bit form of that UUID
+            sim.probe('service_looked_up_by_32_bit_uuid')
         st, t = sim.run(client.discover_service(suuid), 120.0)
         if st != 'done' or t.exception() is not None:
             sim.violation_once('fdisc', f'filtered-discovery:discover_service-failed:{kind}', str(st if st != 'done' else repr(t.exception())))
